@@ -271,8 +271,9 @@ class FrameUnit(Unit):
     """frame condition of one real function, decided by pyvc.frame (a conservative effect analysis of its AST)"""
 
     def __init__(self, relpath, qualname, roots, why, attr_roots=(), own_methods=(), summaries=None, module_roots=(),
-                 only_if_mentioned=False, interior_methods=(), pure_constructors=()):
+                 only_if_mentioned=False, interior_methods=(), pure_constructors=(), field_roots=()):
         self.interior_methods, self.pure_constructors = set(interior_methods), set(pure_constructors)
+        self.field_roots = set(field_roots)
         self.relpath, self.qualname, self.roots, self.why = relpath, qualname, set(roots), why
         self.attr_roots, self.own_methods = set(attr_roots), set(own_methods)
         self.summaries, self.module_roots = dict(summaries or {}), set(module_roots)
@@ -290,7 +291,7 @@ class FrameUnit(Unit):
             if not (isinstance(d, ast.Name) and d.id in ("property", "staticmethod", "classmethod", "abstractmethod")):
                 raise Unsupported("decorator @%s may keep state between calls" % ast.unparse(d))
         fa = FrameAnalysis(ex.node, roots, self.attr_roots, self.own_methods, self.summaries, self.module_roots,
-                           self.interior_methods, self.pure_constructors).run()
+                           self.interior_methods, self.pure_constructors, self.field_roots).run()
         return ex, fa
 
     def generate(self):
